@@ -63,8 +63,35 @@ def mul(a, b):
     return bv(a) * bv(b)
 
 
+# Division lemma: symbolic quotients / remainders are abstracted to fresh values q, r (memoised per operand
+# pair, so the code side and the spec side get the same terms) linked by the true fact a = q*b + r.
+# Sound: whatever is proved holds for every function pair satisfying the lemma, in particular bvsdiv/bvsrem.
+_div_memo = {}
+div_axioms = []
+
+
+def reset_div():
+    _div_memo.clear()
+    del div_axioms[:]
+
+
+def _qr(a, b):
+    k = (a if is_c(a) else ('t', a.get_id()), b if is_c(b) else ('t', b.get_id()))
+    if k not in _div_memo:
+        q, r = fresh('quot'), fresh('rem')
+        _div_memo[k] = (q, r, a, b)
+        A, B = bv(a), bv(b)
+        div_axioms.append(A == q * B + r)
+        ab = lambda x: z3.If(x < 0, -x, x)
+        # truncating division: the remainder is smaller in magnitude than the divisor and has the dividend's sign
+        div_axioms.append(z3.Implies(B != 0, z3.And(z3.ULT(ab(r), ab(B)), z3.Or(r == 0, (r < 0) == (A < 0)))))
+    return _div_memo[k][0], _div_memo[k][1]
+
+
 def sdiv(a, b):
     """truncating signed division (caller guarantees b != 0 and not MIN/-1 where relevant)"""
+    if not (is_c(a) and is_c(b)):
+        return _qr(a, b)[0]
     if is_c(a) and is_c(b):
         sa, sb = to_s(a), to_s(b)
         if sb == 0:
@@ -77,6 +104,8 @@ def sdiv(a, b):
 
 
 def srem(a, b):
+    if not (is_c(a) and is_c(b)):
+        return _qr(a, b)[1]
     if is_c(a) and is_c(b):
         sa, sb = to_s(a), to_s(b)
         if sb == 0:
